@@ -21,12 +21,15 @@ def run_demo(ddir):
 def main():
     prop, x = sys.argv[1], sys.argv[2]
     checks = sys.argv[3:] or [prop]
-    src = "/tmp/mut/out/%s" % prop
-    wt = "/tmp/mut/%s" % prop
+    root = os.environ.get("MUT_ROOT", "/tmp/mut")
+    src = "%s/out/%s" % (root, prop)
+    wt = "%s/%s" % (root, prop)
     patch = os.path.join(src, "patch%s.diff" % x) if x != "extra" else glob.glob(os.path.join(src, "extra*", "patch.diff"))[0]
     demo = os.path.join(src, "demo%s" % x) if x != "extra" else os.path.join(os.path.dirname(patch), "demo")
     note = os.path.join(src, "note%s.txt" % x) if x != "extra" else os.path.join(os.path.dirname(patch), "note.txt")
-    mid = "%s%s" % (prop, x)
+    # a second batch delivers patchA/patchB again: MUT_RENAME=A:C,B:D stores them as <prop>C / <prop>D
+    ren = dict(kv.split(":") for kv in os.environ.get("MUT_RENAME", "").split(",") if ":" in kv)
+    mid = "%s%s" % (prop, ren.get(x, x))
     meta = {"id": mid, "breaks_property": prop, "source": "independent sub-agent given only the property text and a scratch worktree", "ran": []}
     # ---- confirm in the scratch worktree
     sh(["git", "checkout", "--", "."], cwd=wt)
